@@ -98,6 +98,7 @@ def make_run(cfg):
             witness_in = S.CoopEvent()
             attacker_done = S.CoopEvent()
             witness_done = S.CoopEvent()
+            stall_over = S.CoopEvent()
 
             def witness():
                 try:
@@ -142,6 +143,9 @@ def make_run(cfg):
                             protocol.recv_stub(conn)
                         except Exception:
                             pass
+                    if cfg["ending"] == "stall":
+                        # stays connected and silent until everybody else has been served
+                        stall_over.wait()
                     if cfg["ending"] == "reset":
                         sock.do_reset()
                     conn.keep_open = False
@@ -154,13 +158,15 @@ def make_run(cfg):
                     attacker_done.flag = True
 
             def fresh():
-                attacker_done.wait()
+                if cfg["ending"] != "stall":
+                    attacker_done.wait()
                 witness_done.wait()
                 try:
                     if cfg["server"] == "thread":
                         pool = d.transportServer.pool
                         # the new client arrives once the earlier connections have been cleaned up (otherwise a refusal would be legitimate)
-                        w.sch.block(lambda: len(pool.busy) == 0, what="pool drained")
+                        if cfg["ending"] != "stall":
+                            w.sch.block(lambda: len(pool.busy) == 0, what="pool drained")
                     with client.Proxy("PYRO:obj@h:1") as p:
                         p._pyroBind()
                         protocol.SendingMessage.ping(p._pyroConnection)
@@ -169,9 +175,12 @@ def make_run(cfg):
                     raise
                 except Exception as x:
                     got["fresh"] = ("exc", x)
+                finally:
+                    stall_over.flag = True
             w.client(witness, "witness")
             w.client(attacker, "attacker")
             w.client(fresh, "fresh")
+            w.sch.hang_timeout = 20.0
             outcome = w.run()
 
             def V(fp, what):
@@ -180,7 +189,13 @@ def make_run(cfg):
             if w.loop_errors:
                 x = w.loop_errors[0][1]
                 V("request-loop-stopped|%s|%s" % (cfg["server"], type(x).__name__ if not isinstance(x, str) else x), "requestLoop ended: %r" % (w.loop_errors,))
-            if outcome == "deadlock":
+            fatal = False
+            if outcome == "hang":
+                t = w.sch.hung_thread
+                fatal = True
+                V("thread-spins-without-progress|%s|%s" % (cfg["server"], "worker" if t is not None and t.name.startswith("Pyro-Worker") else (t.name if t is not None else "?")),
+                  "thread %r ran for %ds without reaching a scheduling point: %s" % (t, int(w.sch.hang_timeout), getattr(w.sch, "hang_stack", "")[-400:]))
+            elif outcome == "deadlock":
                 stuck = [t for t in w.sch.threads if t.role == "driver" and t.status != S.DONE]
                 V("client-starved-or-deadlock|%s|%s" % (cfg["server"], "+".join(sorted(t.name for t in stuck))), "threads %r" % w.sch.threads)
             elif outcome != "quiescent":
@@ -212,7 +227,7 @@ def make_run(cfg):
                 if not w.loop_alive():
                     V("request-loop-stopped|%s|thread-ended" % cfg["server"], "loop thread is gone")
             obs = (cls, cfg["phase"], outcome, len(got["witness"]), got["fresh"][0] if got["fresh"] else None, len(tgt.log))
-            return {"outcome": repr(obs), "violations": violations, "sample": {"cfg": cfg, "witness": show(got["witness"], 100), "log": tgt.log[:5]}}
+            return {"outcome": repr(obs), "violations": violations, "fatal": fatal, "sample": {"cfg": cfg, "witness": show(got["witness"], 100), "log": tgt.log[:5]}}
         finally:
             w.close()
     return run_fn
@@ -232,10 +247,13 @@ def configs(quick):
                     continue      # the attacker is refused: there is no 'after the handshake'
                 if base == "C" and phase == "after-handshake" and quick and not lab.startswith(("C.type", "C.trunc@-1", "C.twice")):
                     continue
-                for ending in ("close", "reset", "read-then-close"):
+                stall_ok = (timeout > 0 or server == "thread") and pool != "full" and (lab.startswith(("C.trunc", "I.trunc", "garbage.PYRO-only")) or ".dlen*2" in lab)
+                for ending in ("close", "reset", "read-then-close") + (("stall",) if stall_ok else ()):
                     if quick and ending == "read-then-close" and not lab.startswith("I."):
                         continue
                     if quick and timeout and not (lab.startswith(("I.raises", "C.trunc", "I.trunc", "garbage")) or ".dlen" in lab or ".alen" in lab):
+                        continue
+                    if ending == "stall" and base == "I" and phase == "first":
                         continue
                     if quick:
                         # every stream once under the default schedule; a representative subset under all one-preemption / one-reordering schedules
